@@ -3,6 +3,7 @@ import itertools
 
 import core
 import framing
+import gen_tables
 
 COQ_HEADER = "From SPP Require Import Base.Bytes Base.Sx Corr.C13.\nFrom Coq Require Import ZArith List. Import ListNotations."
 COQ_MODEL = "run_c13"
@@ -108,3 +109,7 @@ def branch(case, out):
 
 def size(case):
     return (case["n"] or len(case["lit"])) + sum(abs(case[n]) for n, _ in FIELDS)
+
+
+def tables():
+    return gen_tables.check("TablesOk_C13")
